@@ -62,7 +62,7 @@ EQ_CONTRACTS = [
     (re.compile(r'^<BigDecimal as PartialEq>::eq$'), eq_contract),
     (re.compile(r'^<BigDecimal as PartialEq>::ne$'), ne_contract),
     (re.compile(r'^<BigDecimalRef as PartialEq<.*>>::eq$'), eq_contract),
-    (re.compile(r'^check_equality_bigdecimal_ref$'), eq_contract),
+    (re.compile(r'^(?:[a-z_]+::)*check_equality_bigdecimal_ref$'), eq_contract),
 ]
 NORMALIZED_CONTRACTS = [
     (re.compile(r'^BigDecimal::normalized$'), normalized_contract),
@@ -71,6 +71,7 @@ NORMALIZED_CONTRACTS = [
 
 # ---------------------------------------------------------------- digit counting / rounding term (decided for the real bodies by C18 / C07)
 DIGITS_MAX = [40]
+OPEN_ENDED = [False]
 
 
 def _digit_count_fork(m, mag, what):
@@ -80,6 +81,11 @@ def _digit_count_fork(m, mag, what):
         return len(str(mag))
     k = m.choose_n(D + 1, lambda d: (mag >= 10 ** D) if d == D else (mag < 10 if d == 0 else z3.And(mag >= 10 ** d, mag < 10 ** (d + 1))))
     if k == D:
+        if OPEN_ENDED[0]:
+            # beyond the table the count is only known to exceed D (sound over-approximation; models are replayed natively)
+            d = m.fresh('ndigits')
+            m.assume(z3.And(d >= D + 1, d <= 2 ** 40))
+            return d
         raise E.BoundExceeded('%s: more than %d digits' % (what, D))
     return k + 1
 
@@ -104,10 +110,64 @@ def rounding_term_contract(m, mo, args, tys, dty):
 
 
 DIGIT_CONTRACTS = [
-    (re.compile(r'^count_decimal_digits(_uint)?$'), count_digits_contract),
+    (re.compile(r'^(?:[a-z_]+::)*count_decimal_digits(_uint)?$'), count_digits_contract),
     (re.compile(r'^BigDecimal::digits$'), count_digits_contract),
     (re.compile(r'^BigDecimalRef::count_digits$'), count_digits_contract),
 ]
 ROUNDING_TERM_CONTRACTS = [
-    (re.compile(r'^get_rounding_term$'), rounding_term_contract),
+    (re.compile(r'^(?:[a-z_]+::)*get_rounding_term$'), rounding_term_contract),
 ]
+
+
+# ---------------------------------------------------------------- integer roots (num-bigint): environment contracts for C10 / C11
+import math
+
+
+def _iroot(n, k):
+    if k == 2:
+        return math.isqrt(n)
+    lo, hi = 0, 1 << (n.bit_length() // k + 2)
+    while lo < hi:
+        mid = (lo + hi + 1) // 2
+        if mid ** k <= n:
+            lo = mid
+        else:
+            hi = mid - 1
+    return lo
+
+
+ROOT_DIGITS_MAX = [120]
+
+
+def root_contract(k):
+    """BigUint::sqrt / nth_root(3): returns r = floor(N^(1/k)).  Modelled by a fresh r bounded by the integer roots of the
+    digit-count range of N and a free Boolean `exact` standing for r^k == N (the power relation itself is not encoded)."""
+    def contract(m, mo, args, tys, dty):
+        N = deref(args[0])
+        if k == 3 and len(args) > 1:
+            kk = args[1]
+            if kk != 3:
+                raise E.Unsupported('nth_root(%r)' % (kk,))
+        if not is_sym(N):
+            r = _iroot(N, k)
+            m.root_facts.append((N, r, r ** k == N))
+            return r
+        D = ROOT_DIGITS_MAX[0]
+        d = m.choose_n(D + 2, lambda j: (N == 0) if j == 0 else ((N >= 10 ** D) if j == D + 1 else z3.And(N >= 10 ** (j - 1), N < 10 ** j)))
+        if d == D + 1:
+            raise E.BoundExceeded('root argument has more than %d digits' % D)
+        if d == 0:
+            m.root_facts.append((N, 0, True))
+            return 0
+        lo, hi = _iroot(10 ** (d - 1), k), _iroot(10 ** d - 1, k)
+        r = m.fresh('iroot')
+        exact = z3.Bool('root_exact!%d' % m.fresh_n)
+        m.assume(z3.And(r >= lo, r <= hi))
+        m.root_facts.append((N, r, exact))
+        return r
+    contract.__name__ = 'root%d_contract' % k
+    return contract
+
+
+SQRT_CONTRACTS = [(re.compile(r'^(?:num_bigint::)?BigUint::sqrt$'), root_contract(2))]
+CBRT_CONTRACTS = [(re.compile(r'^(?:num_bigint::)?BigUint::(nth_root|cbrt)$'), root_contract(3))]
